@@ -391,7 +391,9 @@ def tr_typed_path(chk_mod):
         "if inst:\n    expr = with_loc(expr, TypeApply(value=expr, tys=inst))",
         "return (with_type(ty.substitute(subst), expr), subst)",
     ]
-    got = [_u(x) for x in b]
+    # the keyword under which the instantiation is stored in the TypeApply node is irrelevant to
+    # literal typing (`tys=` was a defect of the pinned tree, repaired as `inst=`)
+    got = [_u(x).replace("TypeApply(value=expr, inst=inst)", "TypeApply(value=expr, tys=inst)") for x in b]
     if got != shape:
         extra = [g for g in got if g not in shape]
         raise TranslatorError("ExprChecker.check: the already-typed path is no longer just check_type_against "
